@@ -31,6 +31,7 @@ UNITS = [("registry", tables.registry, "GemVerif/Gen/Registry.lean")]
 UNITS.append(("datagen", __import__("translator.datagen", fromlist=["datagen"]).datagen, "GemVerif/Gen/DataGen.lean"))  # C20
 UNITS.append(("frames", __import__("translator.frames", fromlist=["frames"]).frames, "GemVerif/Gen/Frames.lean"))  # C12
 UNITS.append(("forwarding", __import__("translator.forwarding", fromlist=["forwarding"]).forwarding, "GemVerif/Gen/Forwarding.lean"))  # C11
+UNITS.append(("constraints", __import__("translator.constraints", fromlist=["constraints"]).constraints, "GemVerif/Gen/Constraints.lean"))  # C16
 
 if __name__ == "__main__":
     main()
